@@ -465,3 +465,274 @@ Proof.
   pose proof (paging_core slice (is_some ft || is_some tu) s0 e1 from lim) as P. cbv zeta in P.
   destruct (s0 <? e1)%nat; cbn [fst snd] in P; rewrite W; apply P; auto; apply filter_len_le.
 Qed.
+
+(* ---- F. the maintenance invariant ------------------------------------------------------------ *)
+Definition attr_le (rs : list rec) (f : fam) (asc : bool) : skey -> skey -> Prop :=
+  fun k1 k2 => ord_leb asc (key_attr rs f k1) (key_attr rs f k2) = true.
+
+(* an initialised beacon holds exactly the keys of the records that carry the attribute, sorted *)
+Definition good (rs : list rec) (vt : N) (f : fam) (asc : bool) (b : beacon) : Prop :=
+  (b_init b = false -> b_slice b = []) /\
+  (b_init b = true -> Permutation (b_slice b) (carrier_keys f vt rs) /\ Sorted (attr_le rs f asc) (b_slice b)).
+
+Definition Inv (s : st) : Prop :=
+  NoDup (map r_key (recs s)) /\
+  (forall f asc, good (recs s) (vtype s) f asc (bcn s f asc)) /\
+  (forall f, b_init (bcn s f true) = b_init (bcn s f false)).
+
+Lemma attr_le_trans rs f asc x y z : attr_le rs f asc x y -> attr_le rs f asc y z -> attr_le rs f asc x z.
+Proof. unfold attr_le. apply ord_leb_trans. Qed.
+
+Lemma sort_slice_perm rs f asc l : Permutation (sort_slice rs f asc l) l.
+Proof. apply isort_perm. Qed.
+Lemma sort_slice_sorted rs f asc l : Sorted (attr_le rs f asc) (sort_slice rs f asc l).
+Proof. unfold sort_slice, attr_le. apply (isort_sorted (fun k1 k2 => ord_leb asc (key_attr rs f k1) (key_attr rs f k2))).
+  intros a b. apply ord_leb_total. Qed.
+
+Lemma sort_slice_good rs vt f asc l :
+  Permutation l (carrier_keys f vt rs) -> good rs vt f asc (mkb true (sort_slice rs f asc l)).
+Proof.
+  intros P. split; cbn; intros H; [discriminate|]. split.
+  - eapply perm_trans; [apply sort_slice_perm | exact P].
+  - apply sort_slice_sorted.
+Qed.
+
+Lemma Sorted_ext_in {X} (R R' : X -> X -> Prop) l :
+  (forall x y, In x l -> In y l -> R x y -> R' x y) -> Sorted R l -> Sorted R' l.
+Proof.
+  intros E S. induction S as [|x t S IH H]; constructor.
+  - apply IH. intros a b Ha Hb. apply E; right; auto.
+  - destruct H; constructor. apply E; [left; auto | right; left; auto | auto].
+Qed.
+
+(* -- slices -- *)
+Lemma existsb_skey k l : existsb (skey_eqb k) l = true <-> In k l.
+Proof. rewrite existsb_exists. split.
+  - intros [x [Hx E]]. apply skey_eqb_eq in E. subst. auto.
+  - intros H. exists k. split; auto. apply skey_eqb_refl. Qed.
+Lemma slice_add_in k l : In k l -> slice_add k l = l.
+Proof. intros H. unfold slice_add. apply existsb_skey in H. rewrite H. reflexivity. Qed.
+Lemma slice_add_notin k l : ~ In k l -> slice_add k l = l ++ [k].
+Proof. intros H. unfold slice_add. destruct (existsb (skey_eqb k) l) eqn:E; auto. apply existsb_skey in E. contradiction. Qed.
+
+Lemma slice_del_notin k l : ~ In k l -> slice_del k l = l.
+Proof. induction l as [|x t IH]; simpl; intros H; auto.
+  destruct (skey_eqb x k) eqn:E. - apply skey_eqb_eq in E. subst. exfalso. apply H. auto.
+  - f_equal. apply IH. tauto. Qed.
+Lemma slice_del_sub k l x : In x (slice_del k l) -> In x l.
+Proof. induction l as [|y t IH]; simpl; auto. destruct (skey_eqb y k); simpl; intros H; auto. destruct H; auto. Qed.
+Lemma slice_del_perm k l1 l2 : Permutation l1 l2 -> Permutation (slice_del k l1) (slice_del k l2).
+Proof.
+  induction 1 as [|x l l' P IH|x y l|l l' l'' P1 IH1 P2 IH2]; simpl; auto.
+  - destruct (skey_eqb x k); auto.
+  - destruct (skey_eqb y k) eqn:Ey, (skey_eqb x k) eqn:Ex; auto.
+    + apply skey_eqb_eq in Ey, Ex. subst. auto.
+    + apply perm_swap.
+  - eapply perm_trans; eauto.
+Qed.
+Lemma slice_del_cons_perm k l : In k l -> Permutation l (k :: slice_del k l).
+Proof. induction l as [|x t IH]; simpl; intros H; [contradiction|].
+  destruct (skey_eqb x k) eqn:E. - apply skey_eqb_eq in E. subst. auto.
+  - destruct H as [->|H]; [rewrite skey_eqb_refl in E; discriminate|].
+    eapply perm_trans; [apply perm_skip, IH, H | apply perm_swap]. Qed.
+Lemma slice_del_nodup_notin k l : NoDup l -> ~ In k (slice_del k l).
+Proof. induction 1 as [|x t Hx N IH]; simpl; auto.
+  destruct (skey_eqb x k) eqn:E. - apply skey_eqb_eq in E. subst. auto.
+  - intros [->|H]; [rewrite skey_eqb_refl in E; discriminate | auto]. Qed.
+Lemma slice_del_ssorted (R : skey -> skey -> Prop) k l : StronglySorted R l -> StronglySorted R (slice_del k l).
+Proof. induction 1 as [|x t S IH F]; simpl; [constructor|]. destruct (skey_eqb x k); auto.
+  constructor; auto. rewrite Forall_forall in *. intros y Hy. apply F. eapply slice_del_sub; eauto. Qed.
+Lemma slice_del_sorted rs f asc k l : Sorted (attr_le rs f asc) l -> Sorted (attr_le rs f asc) (slice_del k l).
+Proof. intros S. apply StronglySorted_Sorted, slice_del_ssorted, Sorted_StronglySorted; auto.
+  intros x y z. apply attr_le_trans. Qed.
+
+(* -- record maps -- *)
+Lemma find_rec_key k rs r : find_rec k rs = Some r -> In r rs /\ r_key r = k.
+Proof. induction rs as [|x t IH]; simpl; [discriminate|]. destruct (skey_eqb (r_key x) k) eqn:E.
+  - intros H. inversion H; subst. apply skey_eqb_eq in E. auto.
+  - intros H. destruct (IH H). auto. Qed.
+Lemma find_rec_none k rs : find_rec k rs = None <-> ~ In k (map r_key rs).
+Proof. induction rs as [|x t IH]; simpl; [tauto|]. destruct (skey_eqb (r_key x) k) eqn:E.
+  - apply skey_eqb_eq in E. split; [discriminate | intros H; exfalso; apply H; auto].
+  - apply skey_eqb_neq in E. rewrite IH. tauto. Qed.
+Lemma find_rec_in rs r : NoDup (map r_key rs) -> In r rs -> find_rec (r_key r) rs = Some r.
+Proof. induction rs as [|x t IH]; simpl; intros N H; [contradiction|]. inversion N; subst.
+  destruct H as [->|H]; [rewrite skey_eqb_refl; auto|].
+  destruct (skey_eqb (r_key x) (r_key r)) eqn:E; [|auto].
+  apply skey_eqb_eq in E. exfalso. apply H2. rewrite E. apply in_map. exact H. Qed.
+
+Lemma carrier_in rs f vt k : NoDup (map r_key rs) -> (In k (carrier_keys f vt rs) <-> key_has rs f vt k = true).
+Proof.
+  intros N. unfold carrier_keys, key_has. rewrite in_map_iff. split.
+  - intros [r [<- Hr]]. apply filter_In in Hr. destruct Hr as [Hr Ha]. rewrite (find_rec_in rs r N Hr). exact Ha.
+  - destruct (find_rec k rs) as [r|] eqn:E; [|discriminate]. intros Ha. apply find_rec_key in E.
+    exists r. split; [tauto|]. apply filter_In. tauto.
+Qed.
+Lemma carrier_nodup rs f vt : NoDup (map r_key rs) -> NoDup (carrier_keys f vt rs).
+Proof. unfold carrier_keys. induction rs as [|x t IH]; simpl; intros N; [constructor|]. inversion N; subst.
+  destruct (has_attr f vt x); simpl; auto. constructor; auto.
+  intros H. apply H1. apply in_map_iff in H. destruct H as [r [E Hr]]. apply filter_In in Hr.
+  rewrite <- E. apply in_map. tauto. Qed.
+
+(* what one write does to the record map, seen from an index: other keys untouched, the carriers
+   are the old ones without [k], plus [k] if it carries the attribute now *)
+Definition touches (k : skey) (rs rs' : list rec) : Prop :=
+  NoDup (map r_key rs') /\
+  (forall k', k' <> k -> find_rec k' rs' = find_rec k' rs) /\
+  (forall f vt, Permutation (carrier_keys f vt rs')
+     (if key_has rs' f vt k then k :: slice_del k (carrier_keys f vt rs) else slice_del k (carrier_keys f vt rs))).
+
+Lemma touches_append rs r : NoDup (map r_key rs) -> find_rec (r_key r) rs = None -> touches (r_key r) rs (rs ++ [r]).
+Proof.
+  intros N Fr. pose proof Fr as Nin. apply find_rec_none in Nin.
+  assert (F1 : forall k', find_rec k' (rs ++ [r]) = match find_rec k' rs with Some x => Some x | None => if skey_eqb (r_key r) k' then Some r else None end).
+  { intros k'. clear. induction rs as [|x t IH]; simpl; auto. destruct (skey_eqb (r_key x) k'); auto. }
+  split; [|split].
+  - rewrite map_app. simpl. eapply Permutation_NoDup; [apply Permutation_cons_append | constructor; auto].
+  - intros k' Hk. rewrite F1. destruct (find_rec k' rs); auto.
+    destruct (skey_eqb (r_key r) k') eqn:E; auto. apply skey_eqb_eq in E. congruence.
+  - intros f vt. unfold key_has. rewrite F1, Fr, skey_eqb_refl.
+    assert (D : slice_del (r_key r) (carrier_keys f vt rs) = carrier_keys f vt rs).
+    { apply slice_del_notin. intros H. apply Nin. unfold carrier_keys in H. apply in_map_iff in H.
+      destruct H as [x [E Hx]]. apply filter_In in Hx. rewrite <- E. apply in_map. tauto. }
+    rewrite D. unfold carrier_keys. rewrite filter_app, map_app. simpl.
+    destruct (has_attr f vt r); simpl.
+    + apply Permutation_sym, Permutation_cons_append.
+    + rewrite app_nil_r. apply Permutation_refl.
+Qed.
+
+Lemma replace_keys r rs : map r_key (replace_rec r rs) = map r_key rs.
+Proof. induction rs as [|x t IH]; simpl; auto. destruct (skey_eqb (r_key x) (r_key r)) eqn:E; simpl.
+  - apply skey_eqb_eq in E. congruence. - congruence. Qed.
+
+Lemma touches_replace rs r old : NoDup (map r_key rs) -> find_rec (r_key r) rs = Some old -> touches (r_key r) rs (replace_rec r rs).
+Proof.
+  intros N Fr.
+  assert (F1 : forall k', find_rec k' (replace_rec r rs) = if skey_eqb (r_key r) k' then Some r else find_rec k' rs).
+  { intros k'. revert Fr. clear. induction rs as [|x t IH]; simpl; [discriminate|].
+    destruct (skey_eqb (r_key x) (r_key r)) eqn:E; simpl.
+    - intros _. apply skey_eqb_eq in E. rewrite E. destruct (skey_eqb (r_key r) k'); auto.
+    - intros H. rewrite (IH H). destruct (skey_eqb (r_key x) k') eqn:E2; auto.
+      destruct (skey_eqb (r_key r) k') eqn:E3; auto.
+      apply skey_eqb_eq in E2, E3. apply skey_eqb_neq in E. congruence. }
+  split; [|split].
+  - rewrite replace_keys. exact N.
+  - intros k' Hk. rewrite F1. destruct (skey_eqb (r_key r) k') eqn:E; auto. apply skey_eqb_eq in E. congruence.
+  - intros f vt. unfold key_has. rewrite F1, skey_eqb_refl.
+    revert N Fr. clear. unfold carrier_keys. induction rs as [|x t IH]; simpl; [discriminate|]. intros N. inversion N; subst.
+    destruct (skey_eqb (r_key x) (r_key r)) eqn:E.
+    + intros _. apply skey_eqb_eq in E.
+      assert (D : slice_del (r_key r) (map r_key (filter (has_attr f vt) t)) = map r_key (filter (has_attr f vt) t)).
+      { apply slice_del_notin. intros H. apply H1. rewrite E. apply in_map_iff in H.
+        destruct H as [y [Ey Hy]]. apply filter_In in Hy. rewrite <- Ey. apply in_map. tauto. }
+      simpl. destruct (has_attr f vt x), (has_attr f vt r); simpl; rewrite ?E, ?skey_eqb_refl, ?D; apply Permutation_refl.
+    + intros Fr. specialize (IH H2 Fr). simpl.
+      destruct (has_attr f vt x); simpl; [rewrite E|]; auto.
+      destruct (has_attr f vt r); [|apply perm_skip; auto].
+      eapply perm_trans; [apply perm_skip, IH | apply perm_swap].
+Qed.
+
+Lemma touches_remove rs k : NoDup (map r_key rs) -> touches k rs (remove_rec k rs) /\ find_rec k (remove_rec k rs) = None.
+Proof.
+  intros N.
+  assert (Fk : find_rec k (remove_rec k rs) = None).
+  { revert N. clear. induction rs as [|x t IH]; simpl; auto. intros N. inversion N; subst.
+    destruct (skey_eqb (r_key x) k) eqn:E.
+    - apply skey_eqb_eq in E. subst. apply find_rec_none. auto.
+    - simpl. rewrite E. auto. }
+  split; [|exact Fk]. split; [|split].
+  - revert N. clear. induction rs as [|x t IH]; simpl; auto. intros N. inversion N; subst.
+    destruct (skey_eqb (r_key x) k); auto. simpl. constructor; auto.
+    intros H. apply H1. clear -H. induction t as [|y u IHu]; simpl in *; auto.
+    destruct (skey_eqb (r_key y) k); simpl in *; auto. destruct H; auto.
+  - intros k' Hk. clear -Hk. induction rs as [|x t IH]; simpl; auto.
+    destruct (skey_eqb (r_key x) k) eqn:E; simpl.
+    + apply skey_eqb_eq in E. destruct (skey_eqb (r_key x) k') eqn:E2; auto. apply skey_eqb_eq in E2. congruence.
+    + destruct (skey_eqb (r_key x) k'); auto.
+  - intros f vt. unfold key_has. rewrite Fk.
+    revert N. clear. unfold carrier_keys. induction rs as [|x t IH]; simpl; auto. intros N. inversion N; subst.
+    destruct (skey_eqb (r_key x) k) eqn:E.
+    + apply skey_eqb_eq in E. destruct (has_attr f vt x); simpl; [rewrite E, skey_eqb_refl; auto|].
+      rewrite slice_del_notin; auto. intros H. apply H1. rewrite E. apply in_map_iff in H.
+      destruct H as [y [Ey Hy]]. apply filter_In in Hy. rewrite <- Ey. apply in_map. tauto.
+    + simpl. destruct (has_attr f vt x); simpl; [rewrite E; apply perm_skip|]; auto.
+Qed.
+
+(* -- one beacon under one maintenance step -- *)
+Lemma upd_good rs rs' vt f asc k del add b :
+  NoDup (map r_key rs) -> touches k rs rs' ->
+  good rs vt f asc b ->
+  (del = false -> add = false ->
+     key_has rs' f vt k = key_has rs f vt k /\ (key_has rs f vt k = true -> key_attr rs' f k = key_attr rs f k)) ->
+  (del = false -> add = true -> key_has rs f vt k = false /\ key_has rs' f vt k = true) ->
+  (del = true -> add = key_has rs' f vt k) ->
+  good rs' vt f asc (upd_beacon (sort_slice rs' f) asc del add k (b_init b) b).
+Proof.
+  intros N [N' [F1 F2]] [G0 G1] CA CB CC. specialize (F2 f vt).
+  unfold upd_beacon. destruct (b_init b) eqn:Ib.
+  2:{ rewrite !andb_false_r. split; intros H; [auto | congruence]. }
+  rewrite !andb_true_r. destruct (G1 eq_refl) as [P S].
+  set (C := carrier_keys f vt rs) in *.
+  assert (NC : NoDup C) by (apply carrier_nodup; exact N).
+  assert (NS : NoDup (b_slice b)) by (eapply Permutation_NoDup; [apply Permutation_sym; exact P | exact NC]).
+  assert (AE : forall k', k' <> k -> key_attr rs' f k' = key_attr rs f k').
+  { intros k' Hk. unfold key_attr. rewrite (F1 k' Hk). reflexivity. }
+  assert (InC : In k C <-> key_has rs f vt k = true) by (apply carrier_in; exact N).
+  destruct del, add; cbn [b_slice].
+  - (* refresh, carries the attribute now *)
+    rewrite <- (CC eq_refl) in F2.
+    apply sort_slice_good. rewrite slice_add_notin by (apply slice_del_nodup_notin; exact NS).
+    eapply perm_trans; [apply Permutation_sym, Permutation_cons_append|].
+    eapply perm_trans; [|apply Permutation_sym; exact F2].
+    apply perm_skip, slice_del_perm, P.
+  - (* delete / refresh without the attribute *)
+    rewrite <- (CC eq_refl) in F2.
+    split; cbn; intros H; [discriminate|]. split.
+    + eapply perm_trans; [apply slice_del_perm, P | apply Permutation_sym; exact F2].
+    + eapply Sorted_ext_in; [|apply slice_del_sorted; exact S].
+      intros x y Hx Hy. unfold attr_le.
+      assert (x <> k) by (intros ->; eapply slice_del_nodup_notin; eauto).
+      assert (y <> k) by (intros ->; eapply slice_del_nodup_notin; eauto).
+      rewrite !AE by auto. auto.
+  - (* insert *)
+    destruct (CB eq_refl eq_refl) as [H0 H1]. rewrite H1 in F2.
+    assert (NK : ~ In k C) by (rewrite InC, H0; discriminate).
+    rewrite (slice_del_notin k C NK) in F2.
+    apply sort_slice_good. rewrite slice_add_notin.
+    + eapply perm_trans; [apply Permutation_sym, Permutation_cons_append|].
+      eapply perm_trans; [apply perm_skip, P | apply Permutation_sym; exact F2].
+    + intros H. apply NK. eapply Permutation_in; eauto.
+  - (* untouched *)
+    destruct (CA eq_refl eq_refl) as [H0 H1]. rewrite H0 in F2.
+    replace b with (mkb true (b_slice b)) by (destruct b; cbn in *; congruence).
+    split; cbn; intros H; [discriminate|]. split.
+    + eapply perm_trans; [exact P|]. eapply perm_trans; [|apply Permutation_sym; exact F2].
+      destruct (key_has rs f vt k) eqn:Hk.
+      * apply slice_del_cons_perm. apply InC. reflexivity.
+      * rewrite slice_del_notin; auto. rewrite InC. congruence.
+    + eapply Sorted_ext_in; [|exact S]. intros x y Hx Hy. unfold attr_le.
+      assert (E : forall z, In z (b_slice b) -> key_attr rs' f z = key_attr rs f z).
+      { intros z Hz. destruct (skey_eqb z k) eqn:Ez.
+        - apply skey_eqb_eq in Ez. subst z. apply H1. apply InC. eapply Permutation_in; eauto.
+        - apply AE. apply skey_eqb_neq. exact Ez. }
+      rewrite !E by auto. auto.
+Qed.
+
+Lemma upd_beacon_init srt asc del add k b : b_init (upd_beacon srt asc del add k (b_init b) b) = b_init b.
+Proof. unfold upd_beacon. destruct (b_init b) eqn:E, del, add; cbn; auto. Qed.
+
+Lemma upd_all_inv s rs' del add k :
+  Inv s -> touches k (recs s) rs' ->
+  (forall f, del f = false -> add f = false ->
+     key_has rs' f (vtype s) k = key_has (recs s) f (vtype s) k /\
+     (key_has (recs s) f (vtype s) k = true -> key_attr rs' f k = key_attr (recs s) f k)) ->
+  (forall f, del f = false -> add f = true -> key_has (recs s) f (vtype s) k = false /\ key_has rs' f (vtype s) k = true) ->
+  (forall f, del f = true -> add f = key_has rs' f (vtype s) k) ->
+  Inv (upd_all s rs' (resort false rs') del add k).
+Proof.
+  intros [N [G I]] T CA CB CC. split; [|split]; cbn.
+  - destruct T; auto.
+  - intros f asc. rewrite (I f). assert (E : b_init (bcn s f false) = b_init (bcn s f asc)) by (destruct asc; auto).
+    rewrite E. apply upd_good with (rs := recs s); auto.
+  - intros f. rewrite upd_beacon_init. rewrite (I f). rewrite upd_beacon_init. reflexivity.
+Qed.
